@@ -980,6 +980,7 @@ def fmt_display(ex, v):
         if c is None: return '<symint>'
         return chr(c) if v.ty == 'char' else str(c)
     if isinstance(v, Agg) and v.ty == 'SerdeJsonError': return v.fields[0].v.concrete()
+    if isinstance(v, Opaque): return f'<{v.tag if isinstance(v.tag, str) else v.tag[0]}>'
     if isinstance(v, Agg):
         f = ex.prog.by_key.get(('Display', v.ty, 'fmt'))
         if f is None: raise Unsupported(f'Display for {v.ty}')
@@ -1019,20 +1020,30 @@ def render_chars(ex, args):
     fa = deref_all(args.fields[1].v)
     fargs = fa.fields if isinstance(fa, Agg) else fa.items
     out, i, k = [], 0, 0
+    flags_seen = []
     while i < len(data):
         b = ord(data[i])
         if b == 0: break
         if b < 0x80:
             out.extend(data[i + 1:i + 1 + b].encode('latin-1').decode('utf-8', 'replace')); i += 1 + b
+        elif b == 0x80:                      # long literal: u16 length follows
+            n = ord(data[i + 1]) | (ord(data[i + 2]) << 8)
+            out.extend(data[i + 3:i + 3 + n].encode('latin-1').decode('utf-8', 'replace')); i += 3 + n
         else:
-            arg = fargs[k].v; v = deref_all(arg.fields[0].v); mode = arg.fields[1].v.tag
+            # placeholder 0xC0 | bits: 1 = u32 flags follow, 2 = u16 width, 4 = u16 precision, 8 = u16 argument index
+            i += 1; fl = 0; idx = k
+            if b & 1: fl = sum(ord(data[i + j]) << (8 * j) for j in range(4)); i += 4
+            if b & 2: i += 2
+            if b & 4: i += 2
+            if b & 8: idx = ord(data[i]) | (ord(data[i + 1]) << 8); i += 2
+            arg = fargs[idx].v; v = deref_all(arg.fields[0].v); mode = arg.fields[1].v.tag
+            flags_seen.append((mode, bool(fl & (1 << 23))))          # bit 23: alternate (`#`)
             if mode == 'display' and isinstance(v, StrV): out.extend(v.chars)
             elif mode == 'debug' and isinstance(v, StrV) and v.concrete() is None: out.extend(debug_str_chars(ex, v))
             elif mode == 'display' and isinstance(v, Int) and v.ty == 'char' and v.concrete() is None: out.append(v)
             else: out.extend(render_arg(ex, arg))
-            k += 1; i += 1
-            if b != 0xC0:
-                while i < len(data) and ord(data[i]) >= 0x80 and ord(data[i]) != 0xC0: i += 1
+            k = idx + 1
+    ex.u_fmt_flags = flags_seen
     return out
 def render_arguments(ex, args):
     return ''.join(c if isinstance(c, str) else (chr(c.concrete()) if c.concrete() is not None else '\ufffd') for c in render_chars(ex, args))
@@ -1059,9 +1070,20 @@ def m_debug_struct(ex, a, m):
     parts = [f'{conc(ex, as_str(rest[i]))}: {fmt_debug(ex, rest[i + 1])}' for i in range(0, len(rest), 2)]
     f.buf.append(name + ' { ' + ', '.join(parts) + ' }'); return ok(UNIT)
 def fmt_f64(x):
-    if x == int(x) and abs(x) < 1e16: return repr(float(x))
-    r = repr(float(x))
-    return r.replace('e+', 'e')
+    """serde_json's number printing (ryu `pretty`): shortest round-trip digits; positional notation for 1e-5 <= |x| < 1e16, exponent otherwise"""
+    import math
+    from decimal import Decimal
+    if x == 0: return '-0.0' if math.copysign(1, x) < 0 else '0.0'
+    sign, digs, exp = Decimal(repr(float(x))).as_tuple()
+    digs = list(digs)
+    while len(digs) > 1 and digs[-1] == 0: digs.pop(); exp += 1
+    d = ''.join(map(str, digs)); n = len(d); kk = n + exp
+    if 0 <= exp and kk <= 16: r = d + '0' * exp + '.0'
+    elif 0 < kk <= 16: r = d[:kk] + '.' + d[kk:]
+    elif -5 < kk <= 0: r = '0.' + '0' * (-kk) + d
+    elif n == 1: r = d + 'e' + str(kk - 1)
+    else: r = d[0] + '.' + d[1:] + 'e' + str(kk - 1)
+    return ('-' if sign else '') + r
 def variable_json(ex, v):
     v = deref_all(v)
     if v.lazy is not None: ex.materialize(v)
